@@ -101,5 +101,213 @@ theorem maybeToStackList_wf : ∀ (s : Shape) (ms : List (NT O)), wfList s ms = 
       maybeToStackList_wf s r h.2 hp⟩
 end
 
+/-! coordinates around the stack dim -/
+
+theorem insertIdx_eraseIdx_getElem? {α : Type} : ∀ (c : List α) (d : Nat) (j : α), c[d]? = some j →
+    (c.eraseIdx d).insertIdx d j = c
+  | [], d, j, h => by simp at h
+  | x :: c, 0, j, h => by simp at h; simp [h]
+  | x :: c, d + 1, j, h => by
+    simp only [List.getElem?_cons_succ] at h
+    simp [insertIdx_eraseIdx_getElem? c d j h]
+
+/-- reading a stack at a coordinate obtained by inserting the member position at the stack dim -/
+theorem getAt_stack_insert (ms : List (NT O)) (d j : Nat) (cm : List Nat) (hd : d ≤ cm.length) :
+    getAt (.stack ms d) (cm.insertIdx d j) = (ms[j]?).bind (fun m => getAt m cm) := by
+  rw [getAt_stack, List.getElem?_insertIdx_self, if_pos hd, List.eraseIdx_insertIdx_self]
+  simp
+
+theorem srcCoord_take_length (b : List RIx) (c' ca : List Nat)
+    (h : srcCoord b (List.take (outShape b).length c') = some ca) : (outShape b).length ≤ c'.length := by
+  have := srcCoord_out_length b _ ca h
+  rw [List.length_take] at this
+  omega
+
+/-- F1: an integer item adds its position at the consumed dim and nothing to the output -/
+theorem srcCoord_mid_fixed (b a : List RIx) (i : Nat) (c' : List Nat) :
+    srcCoord (b ++ .fixed i :: a) c' = (srcCoord (b ++ a) c').map (fun cm => cm.insertIdx (nCons b) i) := by
+  rw [srcCoord_append b (.fixed i :: a), srcCoord_append b a]
+  cases hb : srcCoord b (List.take (outShape b).length c') with
+  | none => simp
+  | some ca =>
+    have hl : ca.length = nCons b := srcCoord_length b _ ca hb
+    simp only [Option.bind_some, srcCoord]
+    cases srcCoord a (List.drop (outShape b).length c') with
+    | none => simp
+    | some cr => simp [← hl, insertIdx_append_mid]
+
+/-- F2: a slice / index-list item reads output position `nb` and adds the selected source position at the consumed dim -/
+theorem srcCoord_mid_multi (b a : List RIx) (x : RIx) (hx : x.consumes = true) (hf : ∀ i, x ≠ .fixed i) (c' : List Nat) :
+    srcCoord (b ++ x :: a) c' =
+      (c'[(outShape b).length]?).bind (fun k => (itemPos x k).bind (fun p =>
+        (srcCoord (b ++ a) (c'.eraseIdx (outShape b).length)).map (fun cm => cm.insertIdx (nCons b) p))) := by
+  rw [srcCoord_append b (x :: a)]
+  by_cases hc : (outShape b).length < c'.length
+  · obtain ⟨cb, crest, rfl, hcb⟩ : ∃ cb crest, c' = cb ++ crest ∧ cb.length = (outShape b).length :=
+      ⟨c'.take (outShape b).length, c'.drop (outShape b).length, (List.take_append_drop _ _).symm,
+        by rw [List.length_take]; omega⟩
+    rw [List.take_left' hcb, List.drop_left' hcb]
+    cases crest with
+    | nil => simp at hc; omega
+    | cons k cr =>
+      rw [← hcb, getElem?_append_mid, eraseIdx_append_mid, srcCoord_item_cons x a k cr hx hf]
+      simp only [Option.bind_some]
+      rw [srcCoord_append b a, List.take_left' hcb, List.drop_left' hcb]
+      cases hb : srcCoord b cb with
+      | none => cases itemPos x k <;> simp
+      | some ca =>
+        have hl : ca.length = nCons b := srcCoord_length b _ ca hb
+        cases itemPos x k with
+        | none => simp
+        | some p =>
+          cases srcCoord a cr with
+          | none => simp
+          | some cr' => simp [← hl, insertIdx_append_mid]
+  · have h1 : c'[(outShape b).length]? = none := by
+      rw [List.getElem?_eq_none_iff]; omega
+    have h2 : List.drop (outShape b).length c' = [] := by
+      rw [List.drop_eq_nil_iff]; omega
+    rw [h1, h2, srcCoord_item_nil x a hx hf]
+    cases srcCoord b (List.take (outShape b).length c') <;> simp
+
+
+/-! `lastPiece`: which value piece a member receives -/
+
+theorem lastPiece_foldl_not_mem {α : Type} (j : Nat) : ∀ (P : List Nat) (pieces : List α) (acc : Option α), j ∉ P →
+    (P.zip pieces).foldl (fun acc pp => if pp.1 = j then some pp.2 else acc) acc = acc
+  | [], _, acc, _ => by simp
+  | p :: P, [], acc, _ => by simp
+  | p :: P, q :: Q, acc, h => by
+    simp only [List.mem_cons, not_or] at h
+    have hp : ¬ p = j := fun e => h.1 e.symm
+    simp only [List.zip_cons_cons, List.foldl_cons, hp, ↓reduceIte]
+    exact lastPiece_foldl_not_mem j P Q acc h.2
+
+theorem lastPiece_foldl_at {α : Type} (j : Nat) (pc : α) : ∀ (P : List Nat) (pieces : List α) (acc : Option α) (k : Nat),
+    P[k]? = some j → pieces[k]? = some pc → P.Nodup →
+    (P.zip pieces).foldl (fun acc pp => if pp.1 = j then some pp.2 else acc) acc = some pc
+  | [], _, _, k, h, _, _ => by simp at h
+  | p :: P, [], _, k, _, h, _ => by simp at h
+  | p :: P, q :: Q, acc, 0, h1, h2, hnd => by
+    simp only [List.getElem?_cons_zero, Option.some.injEq] at h1 h2
+    subst h1 h2
+    simp only [List.nodup_cons] at hnd
+    simp only [List.zip_cons_cons, List.foldl_cons, ↓reduceIte]
+    exact lastPiece_foldl_not_mem p P Q (some q) hnd.1
+  | p :: P, q :: Q, acc, k + 1, h1, h2, hnd => by
+    simp only [List.getElem?_cons_succ] at h1 h2
+    simp only [List.nodup_cons] at hnd
+    simp only [List.zip_cons_cons, List.foldl_cons]
+    exact lastPiece_foldl_at j pc P Q _ k h1 h2 hnd.2
+
+theorem lastPiece_none {α : Type} (P : List Nat) (pieces : List α) (j : Nat) (h : j ∉ P) :
+    lastPiece P pieces j = none := lastPiece_foldl_not_mem j P pieces none h
+
+theorem lastPiece_some {α : Type} (P : List Nat) (pieces : List α) (j k : Nat) (pc : α)
+    (h1 : P[k]? = some j) (h2 : pieces[k]? = some pc) (hnd : P.Nodup) : lastPiece P pieces j = some pc :=
+  lastPiece_foldl_at j pc P pieces none k h1 h2 hnd
+
+/-- with equally long lists: a piece is found exactly for the selected positions -/
+theorem lastPiece_cases {α : Type} (P : List Nat) (pieces : List α) (j : Nat) (hl : pieces.length = P.length) (hnd : P.Nodup) :
+    (j ∉ P ∧ lastPiece P pieces j = none)
+    ∨ (∃ (k : Nat) (pc : α), P[k]? = some j ∧ pieces[k]? = some pc ∧ lastPiece P pieces j = some pc) := by
+  by_cases hj : j ∈ P
+  · obtain ⟨k, hk⟩ := List.getElem?_of_mem hj
+    have hkl : k < pieces.length := by
+      rw [hl]; exact (List.getElem?_eq_some_iff.mp hk).1
+    exact Or.inr ⟨k, pieces[k], hk, List.getElem?_eq_getElem hkl, lastPiece_some P pieces j k _ hk (List.getElem?_eq_getElem hkl) hnd⟩
+  · exact Or.inl ⟨hj, lastPiece_none P pieces j hj⟩
+
+/-! structure of `assignNth` / `assignMembers` -/
+
+theorem assignNth_spec : ∀ (ms : List (NT O)) (i : Nat) (rix : List RIx) (v : NT O) (ms' : List (NT O)),
+    assignNth ms i rix v = .ok ms' →
+    ∃ m m', ms[i]? = some m ∧ assign m rix v = .ok m' ∧ ms' = ms.set i m'
+  | [], i, rix, v, ms', h => by simp [assignNth] at h
+  | m :: r, 0, rix, v, ms', h => by
+    simp only [assignNth] at h
+    cases ha : assign m rix v with
+    | error e => simp [ha, Except.map] at h
+    | ok m' =>
+      simp only [ha, Except.map] at h
+      injection h with h
+      exact ⟨m, m', by simp, ha, by simp [← h]⟩
+  | m :: r, i + 1, rix, v, ms', h => by
+    simp only [assignNth] at h
+    cases hr : assignNth r i rix v with
+    | error e => simp [hr, Except.map] at h
+    | ok r' =>
+      simp only [hr, Except.map] at h
+      injection h with h
+      obtain ⟨m0, m0', h1, h2, h3⟩ := assignNth_spec r i rix v r' hr
+      exact ⟨m0, m0', by simpa using h1, h2, by simp [← h, h3]⟩
+
+theorem assignMembers_spec : ∀ (ms : List (NT O)) (j0 : Nat) (P : List Nat) (pieces : List (NT O)) (rix : List RIx)
+    (ms' : List (NT O)), assignMembers ms j0 P pieces rix = .ok ms' →
+    ms'.length = ms.length ∧ ∀ (j : Nat) (m : NT O), ms[j]? = some m →
+      (lastPiece P pieces (j0 + j) = none → ms'[j]? = some m)
+      ∧ (∀ pc, lastPiece P pieces (j0 + j) = some pc → ∃ m', assign m rix pc = .ok m' ∧ ms'[j]? = some m')
+  | [], j0, P, pieces, rix, ms', h => by
+    simp only [assignMembers] at h
+    injection h with h
+    subst h
+    exact ⟨rfl, by intro j m hm; simp at hm⟩
+  | m0 :: r, j0, P, pieces, rix, ms', h => by
+    simp only [assignMembers] at h
+    cases hlp : lastPiece P pieces j0 with
+    | none =>
+      simp only [hlp] at h
+      cases hr : assignMembers r (j0 + 1) P pieces rix with
+      | error e => simp [hr, Except.map] at h
+      | ok r' =>
+        simp only [hr, Except.map] at h
+        injection h with h
+        subst h
+        obtain ⟨hl, hj⟩ := assignMembers_spec r (j0 + 1) P pieces rix r' hr
+        refine ⟨by simp [hl], ?_⟩
+        intro j m hm
+        cases j with
+        | zero =>
+          simp only [List.getElem?_cons_zero, Option.some.injEq] at hm
+          subst hm
+          simp [hlp]
+        | succ j =>
+          simp only [List.getElem?_cons_succ] at hm
+          have := hj j m hm
+          have e : j0 + 1 + j = j0 + (j + 1) := by omega
+          rw [e] at this
+          simpa using this
+    | some pc =>
+      simp only [hlp] at h
+      cases ha : assign m0 rix pc with
+      | error e => simp [ha] at h
+      | ok m0' =>
+        simp only [ha] at h
+        cases hr : assignMembers r (j0 + 1) P pieces rix with
+        | error e => simp [hr, Except.map] at h
+        | ok r' =>
+          simp only [hr, Except.map] at h
+          injection h with h
+          subst h
+          obtain ⟨hl, hj⟩ := assignMembers_spec r (j0 + 1) P pieces rix r' hr
+          refine ⟨by simp [hl], ?_⟩
+          intro j m hm
+          cases j with
+          | zero =>
+            simp only [List.getElem?_cons_zero, Option.some.injEq] at hm
+            subst hm
+            refine ⟨by simp [hlp], ?_⟩
+            intro pc' hpc'
+            simp only [Nat.add_zero, hlp, Option.some.injEq] at hpc'
+            subst hpc'
+            exact ⟨m0', ha, by simp⟩
+          | succ j =>
+            simp only [List.getElem?_cons_succ] at hm
+            have := hj j m hm
+            have e : j0 + 1 + j = j0 + (j + 1) := by omega
+            rw [e] at this
+            simpa using this
+
+
 end NT
 end TdVerif.C16
